@@ -332,6 +332,7 @@ PROPS = {
         "assumptions": ["requests concurrently outstanding on a connection operate on different fids (walks from a shared fid excepted)", "the file-server implementation cancels only requests it was handed and has not answered, and does not answer a request it cancelled", "Go memory model: mutex unlock/lock, go statement and channel send/receive are happens-before edges"],
     },
     "C20": {
+        "gen": ["consts", "shape"],
         "level_text": "Coq theorems (Props/C20.v) over the ring/LTS model of log.go: for every capacity >= 1 and every Log/Filter sequence the index-arithmetic model of doLog's two passes returns exactly the matching entries of the last min(k,N) logged, in order, never panicking or running out of fuel; in the producer/channel/logger LTS every Filter result is the window of a prefix of an order-preserving merge, Filter converges once the channel drains, and the logger is never stuck. The model is tied to the code by exact differential comparison of sequential Log/Filter histories on the real Logger and by the Coq-defined oracle on concurrent histories.",
         "level_note": "Trusted: Coq kernel; translator for cap_logchan; extraction (ExtrOcamlBasic only) and the OCaml driver; the Go harness. Assumed: goroutine scheduling fairness for convergence; pointer identity of *Log modelled by unique ids. Resize is not part of the property and is not modelled. Print Assumptions: closed under the global context.",
         "modes": [{"name": "log", "harness": "log", "modelcheck": "log"}],
